@@ -5,5 +5,6 @@ CONSTANTS
   Items = {a, b, c, d}
   ContItems = {c}
   LateItems = {d}
+  StartMayFail = FALSE
 INVARIANTS TypeOK WorkOnce CompOnce CompAfterWork MaxRunning StartedCount NoStrandedWork HooksPaired FreedOnlyWhenDone NoSubmitLost
 CHECK_DEADLOCK FALSE
